@@ -296,6 +296,11 @@ def fam_endings(rng, tier):
                 ev = [(10, ("text", "m")), (10, ("ping", b"")), (10, ("pong", b"")), (500, end)]
                 out.append({"tid": "end%d" % n, "conns": [{"events": ev}, {"events": [(10, ("close", 1000, b""))]}], "run": {},
                             "actions": {name: [act]}, "runs": 2, "horizon": 90000})
+    # two runs of one object that both end by a ping timeout (silent peers)
+    for answer2 in (None, {"stop_after": 1, "latency": 0}):
+        n += 1
+        out.append({"tid": "end%d" % n, "conns": [{"events": [(10, ("text", "r1"))], "pong": None}, {"events": [(10, ("text", "r2"))], "pong": answer2}],
+                    "run": {"ping_interval": 4, "ping_timeout": 1}, "runs": 2, "horizon": 120000})
     # ping timeout ending
     for answer in (None, {"stop_after": 1, "latency": 100}):
         n += 1
@@ -588,9 +593,13 @@ FAMILIES = {"C13": [("delivery", fam_delivery), ("redirected_delivery", fam_redi
 
 # clauses of another property that count for the check of property X in X's own families (the loss of a silent peer
 # has to be noticed before it can be followed by a new attempt)
-APP_CROSS = {"C15": {"C16.silent_peer_not_reported_within_two_timeouts"},
+APP_CROSS = {"C15": {"C16.silent_peer_not_reported_within_two_timeouts",
+                     # the keepalive of a connection that was lost goes on into the next one
+                     "C16.pings_not_periodic", "C16.ping_after_the_connection_ended"},
              # a run ended by a timeout nobody caused ends with the wrong on_close arguments and return value
-             "C14": {"C16.responsive_peer_reported_as_timed_out"}}
+             # ... and a run that can only end through the keepalive (silent peer) has to end through it
+             "C14": {"C16.responsive_peer_reported_as_timed_out", "C16.pings_not_sent_while_connection_up",
+                     "C16.silent_peer_not_reported_within_two_timeouts"}}
 
 
 def fam_common(rng, tier):
